@@ -451,7 +451,10 @@ func reportViolation(id string, ob *Oblig, scratch string, o checkOpts) string {
 
 func writeEvidence(id string, o checkOpts, t0 time.Time, cov map[string]any, samples []any, recs []obRecord, assumed []string, violations int, db *ContractDB, problems []string) {
 	os.MkdirAll(filepath.Join(verifRoot, "evidence"), 0o755)
-	level := "proof"
+	// the level recorded is the one claimed for the property in MANIFEST.json ("proof", or
+	// "other" where part of the property is not decided by this family or a known finding is
+	// open); a run that does not discharge everything is never recorded as a proof
+	level := claimedCategory(id)
 	if cov == nil {
 		cov = map[string]any{"explanation": "engine error before any obligation was generated"}
 		level = "other"
@@ -461,6 +464,8 @@ func writeEvidence(id string, o checkOpts, t0 time.Time, cov map[string]any, sam
 		if nP != nD || nP == 0 {
 			level = "other"
 			cov["explanation"] = fmt.Sprintf("%d of %d obligations discharged; the rest are reported as violations or known findings, so this run is not a complete proof", nD, nP)
+		} else if level != "proof" {
+			cov["explanation"] = fmt.Sprintf("all %d obligations generated for this property were discharged; the level is not 'proof' because part of the property statement is not decided by contract-based verification here (see level_note in MANIFEST.json and DESIGN.md section 7)", nP)
 		}
 	}
 	cov["checker_cmd"] = fmt.Sprintf("/verif/bin/govc check -property %s -tier %s", id, o.tier)
@@ -494,6 +499,30 @@ func writeEvidence(id string, o checkOpts, t0 time.Time, cov map[string]any, sam
 	}
 	b, _ := json.MarshalIndent(ev, "", " ")
 	os.WriteFile(filepath.Join(verifRoot, "evidence", id+".json"), b, 0o644)
+}
+
+func claimedCategory(id string) string {
+	b, err := os.ReadFile(filepath.Join(verifRoot, "MANIFEST.json"))
+	if err != nil {
+		return "proof"
+	}
+	var m struct {
+		Checks []struct {
+			PropertyID string `json:"property_id"`
+			Level      struct {
+				Category string `json:"category"`
+			} `json:"level_claimed"`
+		} `json:"checks"`
+	}
+	if json.Unmarshal(b, &m) != nil {
+		return "proof"
+	}
+	for _, c := range m.Checks {
+		if c.PropertyID == id && c.Level.Category != "" {
+			return c.Level.Category
+		}
+	}
+	return "proof"
 }
 
 func cmdReplay(args []string) int {
